@@ -281,9 +281,8 @@ def step (s : St) : Op → St × Out
     | none =>
       match allocate s size align with
       | (s', .ok (seg, off)) =>
-          ({ s' with chunks := putChunk s'.chunks
-               { label := l, seg := seg, off := off, size := size, align := align, live := true } },
-           .okAt seg off)
+          let c : Chunk := { label := l, seg := seg, off := off, size := size, align := align, live := true }
+          ({ s' with chunks := putChunk s'.chunks c }, .okAt seg off)
       | (s', .error e) => (s', .err e)
   | .write l b =>
     match liveChunk s l with
@@ -315,7 +314,8 @@ def step (s : St) : Op → St × Out
           match vw.register ((getSeg s.segs c.seg).isSome) c.seg with
           | none => (s, .err .doesNotExist)
           | some vw' =>
-            ({ s with views := s.views.set v { vw' with regs := { label := l, seg := c.seg, off := c.off } :: vw'.regs } }, .ok)
+            let r : Reg := ⟨l, c.seg, c.off⟩
+            ({ s with views := s.views.set v { vw' with regs := r :: vw'.regs } }, .ok)
   | .vread v l =>
     match s.views[v]? with
     | none => (s, .none)
